@@ -295,6 +295,12 @@ def shrink(h, prog, pred):
 
 
 def check_programs(res, pid, h, progs, broken):
+    if broken:
+        # a proof obligation that no longer checks is always reported, whatever else is found
+        res.violation("proof obligation no longer checks: " + " | ".join(broken)[:1500], {"unchecked": broken}, False, key="obligation")
+    if not progs or not any(len(p) > 1 for p in progs):
+        res.violation("empty run: the generators produced no program", {}, False, key="empty-run")
+        return
     flat, impl, rc, err = run_all(h, progs)
     if rc != 0:
         # locate the crashing program
@@ -307,6 +313,9 @@ def check_programs(res, pid, h, progs, broken):
                               {"ops": sp, "stderr": err1[-2000:]}, True, key="abort")
                 return
         res.violation("harness failed rc=%d %s" % (rc, err[-500:]), {}, False, key="protocol")
+        return
+    if not impl:
+        res.violation("empty run: the harness answered nothing for %d op lines" % len(flat), {}, False, key="empty-run")
         return
     model, rc2, err2 = vlib.run_model("C03", flat)
     ia, ma = split(progs, impl), split(progs, model)
@@ -344,6 +353,7 @@ def check_programs(res, pid, h, progs, broken):
     cov["exhaustive"] = False
     res.add_samples([{"program": progs[i][:12], "impl_tail": ia[i][-2][:120], "monitor": verdicts[i]} for i in (0, len(progs) // 2, len(progs) - 1)])
 
+    badset = set(bad)
     if bad:
         classes = {}
         for i in bad:
@@ -355,12 +365,17 @@ def check_programs(res, pid, h, progs, broken):
             v = judge([sp], [o]) or ["?"]
             res.violation("real code violates %s on a %d-op program (%d programs of this class): monitor says %s" % (pid, len(sp), len(idx), v[0]),
                           {"ops": sp, "impl": o, "monitor": v[0], "how": "python3 tools/check.py replay <this file>"}, True, key="ref:" + cls)
-    elif mbad:
-        i = mbad[0]
+    # the model itself must satisfy the monitor wherever the real code does (otherwise model / theorem / spec are wrong)
+    mbad_only = [i for i in mbad if i not in badset]
+    if mbad_only:
+        i = mbad_only[0]
         res.violation("the MODEL violates the monitor on a program where the real code does not (model or theorem wrong): %s" % mverdicts[i],
-                      {"ops": progs[i], "model": ma[i], "unchecked": "Props/%s theorems vs Spec/RefSemantics.judge" % pid}, False, key="obligation")
-    elif diffs:
-        i = min(diffs, key=lambda j: len(progs[j]))
+                      {"ops": progs[i], "model": ma[i], "unchecked": "Props/%s theorems vs Spec/RefSemantics.judge" % pid}, False, key="obligation-model")
+    # a correspondence difference is reported unless the monitor already explains that very program (a violation found
+    # on the same program); differences on other programs are never hidden by unrelated violations
+    diffs_only = [i for i in diffs if i not in badset]
+    if diffs_only:
+        i = min(diffs_only, key=lambda j: len(progs[j]))
         p = progs[i]
 
         def differs(b):
@@ -372,13 +387,11 @@ def check_programs(res, pid, h, progs, broken):
         a, _, _ = vlib.run_lines([str(h)], sp)
         m, _, _ = vlib.run_model("C03", sp)
         k = vlib.first_diff(a, m)
-        res.violation("correspondence model/implementation differs (%d programs) at op %r: impl=%s model=%s; the property monitor holds on "
-                      "every explored program" % (len(diffs), sp[k] if k is not None and k < len(sp) else "?", (a[k] if k is not None and k < len(a) else "?")[:200],
-                                                   (m[k] if k is not None and k < len(m) else "?")[:200]),
+        res.violation("correspondence model/implementation differs (%d programs on which the property monitor holds) at op %r: impl=%s model=%s"
+                      % (len(diffs_only), sp[k] if k is not None and k < len(sp) else "?", (a[k] if k is not None and k < len(a) else "?")[:200],
+                         (m[k] if k is not None and k < len(m) else "?")[:200]),
                       {"ops": sp, "impl": a, "model": m, "unchecked": "correspondence Model/CodeHolder.lean+RefSite.lean ~ codeholder.cpp/assemblers"},
                       False, key="corr")
-    elif broken:
-        res.violation("proof obligation no longer checks: " + " | ".join(broken)[:1500], {"unchecked": broken}, False, key="obligation")
 
 
 def prepare(res, pid, mods):
@@ -417,7 +430,8 @@ def big_section_witness(res, tier):
         p = vlib.sh([str(hb), arch, "%x" % dist], timeout=900, env={"ASAN_OPTIONS": "detect_leaks=0"})
         w = dict(x.split("=", 1) for x in p.stdout.split() if "=" in x)
         if p.returncode != 0 or "offset" not in w:
-            res.notes.append("big-section witness %s %x did not run (rc=%d %s)" % (arch, dist, p.returncode, (p.stdout + p.stderr)[-200:]))
+            res.violation("big-section witness %s %x did not run (rc=%d %s)" % (arch, dist, p.returncode, (p.stdout + p.stderr)[-300:]),
+                          {"ops": ["bigsite %s %x" % (arch, dist)]}, False, key="witness-abort")
             continue
         n += 1
         at, err, by = int(w["offset"], 16), int(w["err_branch"]), w.get("bytes", "")
